@@ -60,7 +60,14 @@ pub(super) struct JsonTokenizer<'a> {
     json: &'a [u8],
     lookahead: Option<char>,
     skip_whitespaces: bool,
+    /// current nesting depth of containers being built (see `MAX_NESTING`)
+    pub(super) nesting: usize,
 }
+
+/// Containers nested deeper than this are refused instead of overflowing the
+/// stack of the recursive reader (serde_json, used by the other loader, has
+/// the same kind of limit).
+pub(super) const MAX_NESTING: usize = 128;
 
 impl<'a> JsonTokenizer<'a> {
     pub(super) fn new_from_str(s: &'a str) -> JsonTokenizer<'a> {
@@ -68,6 +75,7 @@ impl<'a> JsonTokenizer<'a> {
             json: s.as_bytes(),
             lookahead: None,
             skip_whitespaces: true,
+            nesting: 0,
         }
     }
 
